@@ -103,7 +103,7 @@ func childMain() {
 	guest := buildGuest()
 	workers := make([]*worker, threads)
 	for i := range workers {
-		w, err := newWorker(sp.alpha, guest)
+		w, err := newWorker(sp.alpha, guest, shapeModeOf(os.Getenv("C18_ENVID")))
 		if err != nil {
 			childFail(out, sum, "%v", err)
 		}
@@ -133,7 +133,7 @@ func childMain() {
 			}
 			sum.Words++
 			sum.Instances += 4
-			sum.Explain = append(sum.Explain, explain(sp, word, trs, want)...)
+			sum.Explain = append(sum.Explain, explain(sp, workers[0].describeShapes(), word, trs, want)...)
 		}
 		os.WriteFile(out+".probe1", nil, 0o644)
 		sum.Done = int64(len(lists))
@@ -292,13 +292,18 @@ func judge(sp *space, idx int64, word []int, trs [4][]byte, want []byte) *diag {
 			who = "instances-disagree"
 		}
 	}
-	return &diag{Index: idx, Word: sp.names(word), Inst: instNames[bestInst], Who: who, stepDiff: *best}
+	in := instNames[bestInst]
+	if bestInst%2 == 1 {
+		in += " (reaches WASI through the hostile-stack shapes)"
+	}
+	return &diag{Index: idx, Word: sp.names(word), Inst: in, Who: who, stepDiff: *best}
 }
 
-func explain(sp *space, word []int, trs [4][]byte, want []byte) []string {
+func explain(sp *space, shapes string, word []int, trs [4][]byte, want []byte) []string {
 	var o []string
 	const rec = 5 + winSize
 	o = append(o, "word: "+strings.Join(sp.names(word), " ; "))
+	o = append(o, "call shapes: "+shapes)
 	for k := 0; k*rec+rec <= len(want); k++ {
 		w := want[k*rec:]
 		o = append(o, fmt.Sprintf("  step %d %s: model %s R1=%x R2=%x OUT=%x", k, sp.alpha[word[k]].Name,
